@@ -535,7 +535,7 @@ def _own_values(w, i, s, before=None):
 def run(ctx):
     t0 = time.time()
     events = events_for(ctx.tier)
-    depth, dev, budget = (3, 2, 600) if ctx.tier == "quick" else (4, 3, 3000)
+    depth, dev, budget = (3, 2, 600) if ctx.tier == "quick" else (4, 3, 1500)
     stats = {}
     capped = False
     for route1 in (ROUTES1 if ctx.tier == "thorough" else ROUTES1[:1]):
